@@ -21,8 +21,9 @@ package block
 
 //@ func (pb *pendingBase[T]) numPending() (n)
 //@   property C06 C08
-//@   requires [inv] pb.lastHeight <= pb.store.height
-//@   ensures [count] !pb.store.faulty ==> n == pb.store.height - pb.lastHeight
+//@   ensures [count] !pb.store.faulty && pb.lastHeight <= pb.store.height ==> n == pb.store.height - pb.lastHeight
+//@   ensures [count-wrap] !pb.store.faulty && pb.lastHeight > pb.store.height ==> n == pb.store.height - pb.lastHeight + 18446744073709551616
+//@   ensures [frame] pb.lastHeight == old(pb.lastHeight)
 
 //@ func (pb *pendingBase[T]) isEmpty() (r)
 //@   property C06 C08
@@ -30,6 +31,7 @@ package block
 
 //@ func (pb *pendingBase[T]) setLastSubmittedHeight(ctx, newLastSubmittedHeight)
 //@   property C06
+//@   modifies pb.lastHeight, durable pb.store.meta[pb.metaKey], durable pb.store.metaHas[pb.metaKey]
 //@   ensures [monotone] pb.lastHeight == max(old(pb.lastHeight), newLastSubmittedHeight)
 //@   ensures [persisted] pb.lastHeight != old(pb.lastHeight) && !pb.store.faulty
 //@                         ==> pb.store.metaHas[pb.metaKey] && pb.store.meta[pb.metaKey] == le64(pb.lastHeight)
@@ -37,8 +39,135 @@ package block
 
 //@ func (pb *pendingBase[T]) init() (err)
 //@   property C06
+//@   modifies pb.lastHeight
 //@   ensures [restart] err == nil && pb.store.metaHas[pb.metaKey] && old(pb.lastHeight) == 0
 //@                         ==> pb.lastHeight == le64dec(pb.store.meta[pb.metaKey])
 //@   ensures [absent] !pb.store.metaHas[pb.metaKey] && !pb.store.faulty ==> err == nil && pb.lastHeight == old(pb.lastHeight)
 //@   ensures [corrupt] pb.store.metaHas[pb.metaKey] && blen(pb.store.meta[pb.metaKey]) != 8 ==> err != nil
 //@   ensures [never-back] pb.lastHeight >= old(pb.lastHeight)
+
+//@ func submitToDA[T](m, ctx, items, marshalFn, postSubmit, itemType) (err)
+//@   property C06
+//@   modifies m.headerCache.daInc, m.headerCache.daIncHas, m.dataCache.daInc, m.dataCache.daIncHas,
+//@            m.pendingHeaders.base.lastHeight, m.pendingData.base.lastHeight, durable m.store.meta, durable m.store.metaHas
+//@   requires [same-store] m.pendingHeaders.base.store == m.store && m.pendingData.base.store == m.store
+//@   param postSubmit modifies m.headerCache.daInc, m.headerCache.daIncHas, m.dataCache.daInc, m.dataCache.daIncHas,
+//@            m.pendingHeaders.base.lastHeight, m.pendingData.base.lastHeight, durable m.store.meta, durable m.store.metaHas
+//@   nopanic
+//@   requires [m] m != nil && m.metrics != nil
+//@   param marshalFn(item) (bz, e) ensures [marshal] e == nil ==> val(bz) == coreda_Marshal(item)
+//@   param postSubmit(sub, res, gp) requires [success-only] res.Code == coreda.StatusSuccess
+//@   param postSubmit requires [prefix-only] sub == remaining[:res.SubmittedCount] && res.SubmittedCount <= len(remaining)
+//@   param postSubmit requires [blob-is-item] forall j :: 0 <= j && j < len(sub) ==> val(currMarshaled[j]) == coreda_Marshal(sub[j])
+//@   observe swh := call SubmitWithHelpers
+//@   loop 1 invariant [marshal] forall k :: 0 <= k && k <= rangeindex && k < len(items) ==> val(marshaled[k]) == coreda_Marshal(items[k])
+//@   loop 1 invariant [len] len(marshaled) == len(items) && rangeindex >= -1 && marshaled.arr != items.arr
+//@   loop 2 invariant [aligned-len] len(remaining) == len(marshaled)
+//@   loop 2 invariant [aligned] forall k :: 0 <= k && k < len(remaining) ==> val(marshaled[k]) == coreda_Marshal(remaining[k])
+//@   loop 2 invariant [suffix] remaining == items[len(items)-len(remaining):] && len(remaining) <= len(items)
+//@   loop 2 invariant [all] submittedAll ==> len(remaining) == 0
+//@   ensures [all-or-error] err == nil ==> len(remaining) == 0 || ctxDone(ctx) || (swh && swh.res0.Code == coreda.StatusContextCanceled)
+
+// The two callbacks submitHeadersToDA hands to submitToDA.
+// Assumed (trusted) for now: the bytes are a function of the item (proto.Marshal . ToProto);
+// that they decode back to the item is the subject of C12.
+//@ func (m *Manager) submitHeadersToDA$1(header) (bz, err)
+//@   trusted
+//@   ensures [marshal] err == nil ==> val(bz) == coreda_Marshal(header)
+
+//@ func (m *Manager) submitHeadersToDA$2(submitted, res, gasPrice)
+//@   property C06 C07
+//@   modifies m.headerCache.daInc, m.headerCache.daIncHas, m.pendingHeaders.base.lastHeight,
+//@            durable m.pendingHeaders.base.store.meta[m.pendingHeaders.base.metaKey], durable m.pendingHeaders.base.store.metaHas[m.pendingHeaders.base.metaKey]
+//@   requires [success-only] res != nil && res.Code == coreda.StatusSuccess
+//@   requires [m] m != nil && m.headerCache != nil && m.pendingHeaders != nil && m.pendingHeaders.base != nil
+//@   requires [items] forall j :: 0 <= j && j < len(submitted) ==> submitted[j] != nil
+//@   loop 1 invariant [marked] forall j :: 0 <= j && j <= rangeindex && j < len(submitted)
+//@                       ==> m.headerCache.daIncHas[hexstr(HashHdr(HdrOf(submitted[j])))] && m.headerCache.daInc[hexstr(HashHdr(HdrOf(submitted[j])))] == res.Height
+//@   loop 1 invariant [frame] m.pendingHeaders.base.lastHeight == old(m.pendingHeaders.base.lastHeight) && rangeindex >= -1
+//@   ensures [mark] forall j :: 0 <= j && j < len(submitted)
+//@                       ==> m.headerCache.daIncHas[hexstr(HashHdr(HdrOf(submitted[j])))] && m.headerCache.daInc[hexstr(HashHdr(HdrOf(submitted[j])))] == res.Height
+//@   ensures [watermark] len(submitted) > 0 ==> m.pendingHeaders.base.lastHeight == max(old(m.pendingHeaders.base.lastHeight), submitted[len(submitted)-1].BaseHeader.Height)
+//@   ensures [watermark-empty] len(submitted) == 0 ==> m.pendingHeaders.base.lastHeight == old(m.pendingHeaders.base.lastHeight)
+
+//@ func (m *Manager) submitDataToDA$1(signedData) (bz, err)
+//@   trusted
+//@   ensures [marshal] err == nil ==> val(bz) == coreda_Marshal(signedData)
+
+//@ func (m *Manager) submitDataToDA$2(submitted, res, gasPrice)
+//@   property C06 C07
+//@   modifies m.dataCache.daInc, m.dataCache.daIncHas, m.pendingData.base.lastHeight,
+//@            durable m.pendingData.base.store.meta[m.pendingData.base.metaKey], durable m.pendingData.base.store.metaHas[m.pendingData.base.metaKey]
+//@   requires [success-only] res != nil && res.Code == coreda.StatusSuccess
+//@   requires [m] m != nil && m.dataCache != nil && m.pendingData != nil && m.pendingData.base != nil
+//@   requires [items] forall j :: 0 <= j && j < len(submitted) ==> submitted[j] != nil && submitted[j].Data.Metadata != nil
+//@   loop 1 invariant [marked] forall j :: 0 <= j && j <= rangeindex && j < len(submitted)
+//@                       ==> m.dataCache.daIncHas[hexstr(CommitTxs(TxsId(submitted[j].Data.Txs)))] && m.dataCache.daInc[hexstr(CommitTxs(TxsId(submitted[j].Data.Txs)))] == res.Height
+//@   loop 1 invariant [frame] m.pendingData.base.lastHeight == old(m.pendingData.base.lastHeight) && rangeindex >= -1
+//@   ensures [mark] forall j :: 0 <= j && j < len(submitted)
+//@                       ==> m.dataCache.daIncHas[hexstr(CommitTxs(TxsId(submitted[j].Data.Txs)))] && m.dataCache.daInc[hexstr(CommitTxs(TxsId(submitted[j].Data.Txs)))] == res.Height
+//@   ensures [watermark] len(submitted) > 0 ==> m.pendingData.base.lastHeight == max(old(m.pendingData.base.lastHeight), submitted[len(submitted)-1].Data.Metadata.Height)
+//@   ensures [watermark-empty] len(submitted) == 0 ==> m.pendingData.base.lastHeight == old(m.pendingData.base.lastHeight)
+
+// ---- C07: DA-included height ---------------------------------------------------------
+
+//@ pred DAIncPersisted(m) := (m.store.metaHas["d"] && le64dec(m.store.meta["d"]) == m.daIncludedHeight && blen(m.store.meta["d"]) == 8)
+//@                            || (!m.store.metaHas["d"] && m.daIncludedHeight == 0)
+
+//@ func (m *Manager) incrementDAIncludedHeight(ctx) (err)
+//@   property C07
+//@   modifies m.daIncludedHeight, durable m.store.meta["d"], durable m.store.metaHas["d"], m.exec.finalized
+//@   requires [inv] DAIncPersisted(m)
+//@   requires [bound] m.daIncludedHeight < 18446744073709551615
+//@   observe fin := call SetFinal@1
+//@   observe per := call SetMetadata@1
+//@   ensures [plus-one] err == nil ==> m.daIncludedHeight == old(m.daIncludedHeight) + 1
+//@   ensures [kept] err != nil ==> m.daIncludedHeight == old(m.daIncludedHeight)
+//@   ensures [final-first] err == nil ==> fin && fin.arg2 == m.daIncludedHeight && fin.count == 1
+//@   ensures [durable] err == nil ==> DAIncPersisted(m)
+//@   ensures [persist-only-plus-one] per ==> le64dec(m.store.meta["d"]) == old(m.daIncludedHeight) + 1 || m.store.faulty
+//@   crash_inv [finalize-before-persist] fin && fin.arg2 == old(m.daIncludedHeight) + 1
+//@   crash_inv [report-after-persist] m.daIncludedHeight == old(m.daIncludedHeight)
+
+//@ func (m *Manager) GetDAIncludedHeight() (h)
+//@   property C07
+//@   ensures [get] h == m.daIncludedHeight
+
+//@ pred HdrMarked(m, h) := m.headerCache.daIncHas[hexstr(HashHdr(m.store.hdrAt[h]))]
+//@ pred DataMarkedOrEmpty(m, h) := CommitTxs(m.store.txsAt[h]) == val(dataHashForEmptyTxs) || m.dataCache.daIncHas[hexstr(CommitTxs(m.store.txsAt[h]))]
+
+//@ func (m *Manager) IsDAIncluded(ctx, height) (ok, err)
+//@   property C07
+//@   requires [m] m.headerCache != nil && m.dataCache != nil
+//@   ensures [gate] err == nil && ok ==> height <= m.store.height && m.store.has[height] && HdrMarked(m, height) && DataMarkedOrEmpty(m, height)
+//@   ensures [complete] !m.store.faulty && height <= m.store.height && m.store.has[height] && HdrMarked(m, height) && DataMarkedOrEmpty(m, height) ==> ok && err == nil
+//@   ensures [beyond] !m.store.faulty && height > m.store.height ==> !ok && err == nil
+//@   ensures [frame] m.daIncludedHeight == old(m.daIncludedHeight) && m.store.meta == old(m.store.meta) && m.headerCache.daIncHas == old(m.headerCache.daIncHas)
+
+//@ func (m *Manager) SetRollkitHeightToDAHeight(ctx, height) (err)
+//@   property C07
+//@   modifies durable m.store.meta, durable m.store.metaHas
+//@   requires [m] m.headerCache != nil && m.dataCache != nil
+//@   observe sm1 := call SetMetadata@1
+//@   observe sm2 := call SetMetadata@2
+//@   ensures [rhb-header] err == nil ==> sm1 && HdrMarked(m, height) && val(sm1.arg3) == le64(m.headerCache.daInc[hexstr(HashHdr(m.store.hdrAt[height]))])
+//@   ensures [rhb-data] err == nil && CommitTxs(m.store.txsAt[height]) != val(dataHashForEmptyTxs)
+//@                       ==> sm2 && val(sm2.arg3) == le64(m.dataCache.daInc[hexstr(CommitTxs(m.store.txsAt[height]))])
+//@   ensures [rhb-empty] err == nil && CommitTxs(m.store.txsAt[height]) == val(dataHashForEmptyTxs)
+//@                       ==> sm2 && val(sm2.arg3) == le64(m.headerCache.daInc[hexstr(HashHdr(m.store.hdrAt[height]))])
+//@   ensures [frame] m.daIncludedHeight == old(m.daIncludedHeight) && m.store.meta["d"] == old(m.store.meta["d"]) && m.store.metaHas["d"] == old(m.store.metaHas["d"])
+
+//@ func (m *Manager) DAIncluderLoop(ctx, errCh)
+//@   property C07
+//@   modifies m.daIncludedHeight, durable m.store.meta, durable m.store.metaHas, m.exec.finalized
+//@   requires [m] m.headerCache != nil && m.dataCache != nil
+//@   requires [inv] DAIncPersisted(m) && m.daIncludedHeight <= m.store.height
+//@   requires [height-bound] m.store.height < 18446744073709551615
+//@   observe isda := call IsDAIncluded
+//@   observe inc := call incrementDAIncludedHeight
+//@   observe rhb := call SetRollkitHeightToDAHeight
+//@   loop 1 invariant [persisted] DAIncPersisted(m) && m.daIncludedHeight <= m.store.height
+//@   loop 2 invariant [persisted] DAIncPersisted(m) && m.daIncludedHeight <= m.store.height
+//@   loop 2 invariant [track] currentDAIncluded == m.daIncludedHeight
+//@   loop 2 invariant [gate] inc ==> isda && isda.res0 && isda.res1 == nil && isda.arg2 == m.daIncludedHeight && rhb && rhb.arg2 == m.daIncludedHeight
+//@   loop 2 invariant [one-step] inc.count <= 1
